@@ -109,9 +109,14 @@ def ep_value(p, slot_vals) -> complex:
     return sum(c * cmath.exp(1j * math.pi * (c0 / 4 + a * ta + b * tb + g * tc)) for (c0, a, b, g, c) in terms) / 2 ** sc
 
 
-def model_eval(circuits: list[stim.Circuit], tag: str, timeout=1500):
+ELAB_IMPORTS = "Require Import TV.Proofs.KrausCircuit TV.Proofs.ParseElab.\n"
+
+
+def model_eval(circuits: list[stim.Circuit], tag: str, timeout=1500, elab=False):
     """evaluate the Coq model on a list of circuits (one coqc call).  Per circuit returns a dict:
-       {"accept": bool, "ok": bool, "nrec", "weights"[err][rec] (floats), "tables", "det_columns", "n"} or {"skip": reason}"""
+       {"accept": bool, "ok": bool, "nrec", "weights"[err][rec] (floats), "tables", "det_columns", "n"} or {"skip": reason}.
+       elab=True adds "covered": the decision of C01_parsed_text_is_kraus_product (the text elaborates to a circuit of the composition
+       theorem and the parse model's lane program is that circuit's lane program, all lanes inside the register)"""
     terms, metas = [], []
     for c in circuits:
         try:
@@ -123,13 +128,16 @@ def model_eval(circuits: list[stim.Circuit], tag: str, timeout=1500):
             metas.append({"skip": "too many lanes for the dense model"})
             continue
         metas.append({"n": n, "slots": slots})
+        cov = (f",\n                    match elab_circuit {n - 1}%nat {term} with\n"
+               f"                    | Some cs => parse_is_circuit {n - 1}%nat {term} cs && forallb (cinstr_lanes_ok {n}%nat) cs\n"
+               f"                    | None => false end") if elab else ""
         terms.append(
             f"match build {n - 1}%nat {term} with\n"
             f" | None => None\n"
             f" | Some st => Some (run_ok {n}%nat (pops st), counts {n}%nat (pops st), map (map showp) (weights {n}%nat (pops st)),\n"
-            f"                    map (map (fun q => (Qnum (Qred q), Zpos (Qden (Qred q)))) ) (channels_of {n}%nat (pops st)), det_columns st)\n"
+            f"                    map (map (fun q => (Qnum (Qred q), Zpos (Qden (Qred q)))) ) (channels_of {n}%nat (pops st)), det_columns st{cov})\n"
             f" end")
-    vals = cq.eval_terms(tag, IMPORTS, terms, timeout=timeout) if terms else []
+    vals = cq.eval_terms(tag, IMPORTS + (ELAB_IMPORTS if elab else ""), terms, timeout=timeout) if terms else []
     out = []
     it = iter(vals)
     for m in metas:
@@ -140,13 +148,17 @@ def model_eval(circuits: list[stim.Circuit], tag: str, timeout=1500):
         if v is None:
             out.append({"accept": False, "n": m["n"]})
             continue
-        ok, (nr, ns, ne), w, tables, dets = v[1]
+        if elab:
+            ok, (nr, ns, ne), w, tables, dets, covered = v[1]
+        else:
+            ok, (nr, ns, ne), w, tables, dets = v[1]
+            covered = None
         sv = [0.0, 0.0, 0.0]
         for half, k in m["slots"].items():
             sv[k] = float(half)
         W = np.array([[ep_value(e, sv).real for e in row] for row in w], dtype=float)
         out.append({"accept": True, "ok": bool(ok), "nrec": nr, "nsil": ns, "nerr": ne, "weights": W,
-                    "tables": [[Fraction(a, b) for a, b in t] for t in tables], "det_columns": [list(d) for d in dets], "n": m["n"]})
+                    "tables": [[Fraction(a, b) for a, b in t] for t in tables], "det_columns": [list(d) for d in dets], "n": m["n"], "covered": covered})
     return out
 
 
